@@ -2,7 +2,7 @@
 from facts import AnalysisBroken, load_fixture_facts
 from model import (norm_cond, Program, dstr, strip, fact_holds, mentions_field, mentions_call, mentions_var,
                    mentions_enum, const_value, walk)
-from rules import (guarded, calls_to, field_writes, who_may_call, full_range, loops_over,
+from rules import (local_container_pushes, guarded, calls_to, field_writes, who_may_call, full_range, loops_over,
                    every_iteration_passes, basename, origins, is_var, is_enum, lastname,
                    dominated_by, reached_only_via)
 import charset
@@ -286,7 +286,13 @@ def run(ctx):
                                'every input yields an object', 'compdb:input-without-object')
     for f in printers:
         for e in f.calls('PrintCompdbObjectsForEdge'):
-            r = f.find_path(None, lambda x: x is e, from_succ=f.entry,
+            # edges selected into a local list first and printed in a second loop are judged where they are selected
+            sel = [e]
+            os_ = origins(f, e['args'][1]) if len(e.get('args') or []) > 1 else []
+            flows = [local_container_pushes(f, o) for o in os_]
+            if os_ and all(flows):
+                sel = [pe for fl in flows for pe, pv in fl]
+            r = f.find_path(None, lambda x: any(x is se for se in sel), from_succ=f.entry,
                             edge_ok=lambda b, i, s, f=f: not any('Edge::inputs_.empty()' in ef[0] and ef[1] is False for ef in f.edge_facts(b, i)),
                             sensitive=False)
             ctx.check('C19.VS1', r is None, f.name, 'compdb:edge-without-inputs-printed', f.where(e),
